@@ -141,6 +141,10 @@ func loadRaw(a *inst.Inst, ctx context.Context, pbdata []byte) error {
 
 func main() {
 	flag.Parse()
+	if v, ok := ev.ReplayRequested(); ok {
+		fmt.Printf("  this check enumerates inputs; the replay artefact names the failing input directly: %v\n", v.Replay)
+		return
+	}
 	r := ev.Start("C18")
 	defer r.RecoverMain()
 	defer world.Cleanup()
